@@ -173,6 +173,45 @@ func extractBan() {
 		put("statusDeletesWhenNotBefore", strings.Contains(body, "if!time.Now().Before(status.Expiration){returnremoveBannedIPNet(banIndex,reasonIndex,k)}banStatus=status"),
 			"Status removes the record and reports the zero Status when !now.Before(expiry)")
 	}
+	// one write transaction per call: exactly one walletdb.Update, no walletdb.View, and (Status) the read and the
+	// purge are both inside that Update's closure
+	oneTx := func(method string, inside ...string) bool {
+		fd := funcDecl(store, "banStore", method)
+		if fd == nil {
+			fail("banman/store.go: method banStore.%s", method)
+			return false
+		}
+		nUpd, nView, ok := 0, 0, false
+		ast.Inspect(fd.Body, func(x ast.Node) bool {
+			ce, isCall := x.(*ast.CallExpr)
+			if !isCall {
+				return true
+			}
+			switch squeeze(src(ce.Fun)) {
+			case "walletdb.View", "s.db.View", "s.db.BeginReadTx", "s.db.BeginReadWriteTx", "walletdb.Batch":
+				nView++
+			case "walletdb.Update", "s.db.Update":
+				nUpd++
+				if len(ce.Args) == 2 {
+					if fl, isLit := ce.Args[1].(*ast.FuncLit); isLit {
+						ok = true
+						for _, name := range inside {
+							if !hasCall(fl.Body, name) {
+								ok = false
+							}
+						}
+					}
+				}
+			}
+			return true
+		})
+		// nothing that touches the buckets outside the closure
+		return ok && nUpd == 1 && nView == 0
+	}
+	put("statusOneTransaction", oneTx("Status", "fetchStatus", "removeBannedIPNet"),
+		"Status: one walletdb.Update whose closure both reads (fetchStatus) and purges (removeBannedIPNet); no other transaction")
+	put("banOneTransaction", oneTx("BanIPNet", "addBannedIPNet"), "BanIPNet: one walletdb.Update")
+	put("unbanOneTransaction", oneTx("UnbanIPNet", "removeBannedIPNet"), "UnbanIPNet: one walletdb.Update")
 	if fd := funcDecl(store, "", "fetchStatus"); fd == nil {
 		fail("banman/store.go: func fetchStatus")
 	} else {
